@@ -1010,6 +1010,16 @@ func (g *TxGen) finish(t *rapid.T, a *Actor, acct *staking.Account, method trans
 	d.Resign = func(gas2 uint64) []byte {
 		return SignTx(signer, nonce, &transaction.Fee{Gas: transaction.Gas(gas2), Amount: q(feeAmt)}, method, body)
 	}
+	if d.Mutated == "" && rapid.IntRange(0, 19).Draw(t, "noFeeField") == 0 {
+		// the fee field left out altogether (a hand-made transaction; submission through a node always fills it in): no fee
+		// and a gas limit of zero - it executes only where nothing costs gas, and is authenticated like any other
+		d.Gas, d.Fee, d.Resign = 0, 0, nil
+		d.Raw = SignTx(signer, nonce, nil, method, body)
+		d.Note += " no-fee-field"
+		if bal := acct.General.Balance.ToBigInt(); bal.IsUint64() && bal.Uint64() >= g.W.Spec.MinTransact {
+			d.ExpectAuthOK = d.ExpectAuthOK || signer == a.Signer
+		}
+	}
 	if d.ExpectAuthOK {
 		g.nonceAdd[a.Addr]++
 	}
